@@ -329,3 +329,19 @@ for fn, short, e in (('COST', 'cost', 'c'), ('IS_COMPLETED', 'completed', 'k')):
            outline={'COST': 'cost', 'IS_COMPLETED': 'completed'}, enforce='%s__%s' % (short, part), min_reach=1,
            bound='none: sequences of any length < 2^32 handles (inductive invariant over the outlined loop of the real function)')
 LEVELS['C06'] = 'proof'; LEVELS['C05'] = 'proof'
+
+UNITS['clause_is'] = {
+    'opaque': [' get_lock$', 'report_forbidden_call', 'params_string'], 'dyn_types': [r'^sequence_handler<0>$'],
+    'ghost_fields': {r'^condition_base<int\(int\)>$': ['_Bool g_result', 'int g_evals', 'unsigned long g_stamp', 'unsigned long g_pos'],
+                     r'^side_effect_base<int\(int\)>$': ['int g_throws', 'int g_runs', 'unsigned long g_stamp', 'unsigned long g_pos']},
+    'roots': {'MATCH_CONDITIONS': '12call_matcherIFiiESt5tupleIJNS_8wildcardEEEE16match_conditionsE', 'RUN_ACTIONS': '12call_matcherIFiiESt5tupleIJNS_8wildcardEEEE11run_actionsE',
+              'CM': r'rec:^call_matcher<int\(int\),std::tuple<wildcard>>$', 'COND': r'rec:^condition_base<int\(int\)>$', 'SEFF': r'rec:^side_effect_base<int\(int\)>$',
+              'LEC': r'rec:^list_elem<condition_base<int\(int\)>>$', 'LEA': r'rec:^list_elem<side_effect_base<int\(int\)>>$'},
+    'stub_aliases': {'VS_COND_CHECK': r'^vs_.*condition_baseIFiiEE5check', 'VS_ACTION': r'^vs_.*side_effect_baseIFiiEE6action'},
+}
+for short, e, parts in (('mcond', 'm', ('init', 'iter', 'exit')), ('ract', 'a', ('iter', 'exit'))):
+    for part in parts:
+        ob(name='clause_is.%s.%s' % ('match_conditions' if short == 'mcond' else 'action_loop', part), kind='IS', props=['C08'], unit='clause_is', harness='h_clause_is.c', entry='%s_%s' % (e, part),
+           outline={'MATCH_CONDITIONS': 'mcond', 'RUN_ACTIONS': 'ract'}, enforce='%s__%s' % (short, part), min_reach=1, allow_nobody=['f__ZN11trompeloeil8get_lock', 'vpx_', 'vs_', 'f__ZN11trompeloeil21report_forbidden', 'f__ZN11trompeloeil13params_string'],
+           bound='none: any number of WITH clauses / side effects (inductive invariant over the outlined loop of the real function)')
+LEVELS['C08'] = 'proof'
